@@ -2,13 +2,14 @@
 # try_benign.sh <patch> [IDs...] : apply a behaviour-preserving change to /repo, run the checks (default: all 20),
 # print every check that does not exit 0, undo the change.
 P="$1"; shift
+REPO="${VERIF_REPO:-/repo}"
 IDS="$@"
 [ -z "$IDS" ] && IDS="C01 C02 C03 C04 C05 C06 C07 C08 C09 C10 C11 C12 C13 C14 C15 C16 C17 C18 C19 C20"
-git -C /repo apply "$P" || { echo "patch does not apply"; exit 3; }
+git -C "$REPO" apply -3 "$P" || { echo "patch does not apply"; exit 3; }
 bad=0
 for id in $IDS; do
   timeout 1800 /verif/check "$id" > /tmp/benign_$id.log 2>&1; rc=$?
   if [ $rc -ne 0 ]; then bad=$((bad+1)); echo "ALARM check $id exit=$rc: $(grep -E '^(VIOLATION|INCONCLUSIVE)' /tmp/benign_$id.log | head -2 | cut -c1-260)"; fi
 done
-git -C /repo checkout -- .
+git -C "$REPO" reset -q --hard HEAD
 echo "benign run done: $bad check(s) did not exit 0"
